@@ -98,7 +98,7 @@ static void case_pool(const args_t *a, long c, rng_t *r)
 	statf(1, "pool.callers.%d", ncallers); statf(1, "pool.size.%d", psize);
 	STAT("pool.runs");
 	if (want_sample()) sample("pool: %d caller threads, each with its own pooled writer (1 KiB blocks, all compression types) and pooled sorter (small chunks), sharing one pool of %d threads; delay injection %s", ncallers, psize, (c % 3) ? "on" : "off");
-	case_hash((uint64_t)c ^ a->seed << 20 ^ 1);
+	case_hash(((uint64_t)c * 4 + 1) ^ (a->seed << 20));
 }
 
 typedef struct { const struct mtbl_source *src; const model_t *m; uint64_t seed; int idx; int ok; uint64_t ops; } rl_t;
@@ -141,7 +141,15 @@ static void case_reader(const args_t *a, long c, rng_t *r)
 	wcfg_t cfg; gen_wcfg(r, &cfg); cfg.comp = c % 6; cfg.level = LEVEL_DEFAULT; cfg.block_size = 1024; cfg.pool = -1; cfg.prefix_len = 0; cfg.use_fd = 0; cfg.verify = (c / 6) % 2;
 	model_t m; model_init(&m);
 	size_t n = 500 + rndn(r, 1500);
-	for (size_t i = 0; i < n; i++) { uint8_t k[24]; size_t lk = snprintf((char *)k, sizeof k, "r%07zu", i * 3); uint8_t v[120]; size_t lv = 10 + rndn(r, 110); for (size_t j = 0; j < lv; j++) v[j] = (uint8_t)(i * 7 + j); model_push(&m, k, lk, v, lv); }
+	/* content class: counter bytes / long runs of one byte (blocks that expand > 30x when read) / incompressible; larger blocks for the runs */
+	int content = (int)((c / 12) % 3);
+	if (content == 1) cfg.block_size = 8192u << rndn(r, 3);
+	for (size_t i = 0; i < n; i++) {
+		uint8_t k[24]; size_t lk = snprintf((char *)k, sizeof k, "r%07zu", i * 3);
+		uint8_t v[400]; size_t lv = content == 1 ? 300 + rndn(r, 50) : 10 + rndn(r, 110);
+		for (size_t j = 0; j < lv; j++) v[j] = content == 0 ? (uint8_t)(i * 7 + j) : content == 1 ? (uint8_t)('a' + i % 3) : (uint8_t)rnd64(r);
+		model_push(&m, k, lk, v, lv);
+	}
 	char path[4096]; snprintf(path, sizeof path, "%s/c14r-%ld.mtbl", a->workdir, c);
 	write_model(path, &cfg, &m, NULL);
 	struct mtbl_reader *rd = open_reader(path, &cfg);
@@ -152,10 +160,10 @@ static void case_reader(const args_t *a, long c, rng_t *r)
 	for (int i = 0; i < nt; i++) { pthread_join(th[i], NULL); if (!t[i].ok) inconclusive("reader workload %ld thread %d read wrong data (not a race verdict by itself)", c, i); stat_add("reader.ops", t[i].ops); }
 	mtbl_reader_destroy(&rd);
 	unlink(path);
-	statf(1, "reader.threads.%d", nt); statf(1, "reader.comp.%s", COMP_NAME[cfg.comp]); statf(1, "reader.verify.%d", cfg.verify);
+	statf(1, "reader.threads.%d", nt); statf(1, "reader.comp.%s", COMP_NAME[cfg.comp]); statf(1, "reader.verify.%d", cfg.verify); statf(1, "reader.content.%s", content == 0 ? "counter" : content == 1 ? "runs" : "random");
 	STAT("reader.runs");
 	if (want_sample()) sample("reader: %d threads on one open reader (%zu entries, comp=%s, verify_checksums=%d), each with private iterators: full scans, get, get_prefix, get_range, seek storms", nt, m.n, COMP_NAME[cfg.comp], cfg.verify);
-	case_hash((uint64_t)c ^ a->seed << 20 ^ 2);
+	case_hash(((uint64_t)c * 4 + 2) ^ (a->seed << 20));
 	model_free(&m);
 }
 
